@@ -30,13 +30,20 @@ def check(tier, seed):
         r = h.run(trace=False, timeout=60, **{k: v for k, v in j.items() if k not in ("name", "meta")})
         out = verify_dump(r["dump"]) if os.path.exists(r["dump"]) else "nodump"
         err = r["err"]
+        kind = vm_corr.impl_outcome(r)["kind"]
         h.cleanup(r)
-        return j, out, err
+        return j, out, err, kind
     with ThreadPoolExecutor(max_workers=14) as ex:
         res = list(ex.map(one, jobs))
-    for j, out, err in res:
+    for j, out, err, kind in res:
         if out == "nodump" or out == "":
             stats["not-compiled"] += 1
+            if kind.startswith(("sanitizer", "signal", "assert", "crash")):
+                # the compiler itself died on this program: no module, hence no well-formed module
+                stats["compiler-crash"] = stats.get("compiler-crash", 0) + 1
+                if stats["compiler-crash"] <= 3:
+                    src = j.get("src") or open(j["file"]).read()
+                    rep.violation("c07_compiler_crash_%s" % j["name"], "# the compiler crashed (%s) while compiling this program; no module was emitted\n# %s\n%s" % (kind, err[-600:].replace("\n", "\n# "), src), True)
             continue
         if out.startswith("ok"):
             stats["ok"] += 1
